@@ -1,4 +1,4 @@
-(* C32 — proofs about the model of getProofInfo (Model/C32.v). *)
+(* C32 — proofs about the model of getProofInfo and of a proving round (Model/C32.v). *)
 From Coq Require Import ZArith List Bool Lia.
 From KV Require Import Common.Verdict Gen.Consts_C32 Model.C32.
 Import ListNotations.
@@ -434,6 +434,228 @@ Section Proofs.
         * apply Z.leb_le. rewrite Z.min_r by lia. rewrite Z.max_r by lia. nia.
         * apply Z.ltb_lt. rewrite Z.min_r by lia. rewrite Z.max_r by lia. nia.
   Qed.
+  (* ---------- proving rounds (proveTransactions) ---------- *)
+
+  (* a transaction of a round on which the property speaks and no failure is injected *)
+  Definition tx_clean (r : round) (t : rtx) : Prop :=
+    guards (tx_input r t) /\ t_fail t = NoFail /\ t_subfail t = false.
+
+  (* no state across transactions: a round is the per-transaction function mapped over the
+     round's transactions, every one judged with the round's own factor and difficulties *)
+  Theorem round_is_map : forall r txs,
+      (forall t, In t txs -> tx_clean r t) ->
+      run_txs L r txs = (map (tx_outcome L r) txs, Done).
+  Proof.
+    intros r txs. induction txs as [|t ts IH]; intros H.
+    - reflexivity.
+    - cbn [run_txs map].
+      assert (Ht : tx_clean r t) by (apply H; left; reflexivity).
+      destruct Ht as (G & HF & HS).
+      destruct (classification_exact _ G HF) as (w & acc & req & Hget & _ & _).
+      unfold tx_outcome at 1. rewrite Hget.
+      rewrite IH by (intros t' Hin; apply H; right; exact Hin).
+      unfold outcome_of, cons_out. cbn [fst snd]. rewrite HS.
+      destruct w; cbn [negb andb]; [destruct (acc <? req); reflexivity | reflexivity].
+  Qed.
+
+  (* with failures (any inputs): the outcomes are still the map over the processed prefix *)
+  Theorem round_prefix : forall r txs,
+      exists n, (n <= length txs)%nat /\
+        fst (run_txs L r txs) = map (tx_outcome L r) (firstn n txs) /\
+        (snd (run_txs L r txs) = Done -> n = length txs).
+  Proof.
+    intros r txs. induction txs as [|t ts IH].
+    - exists 0%nat. repeat split; reflexivity.
+    - destruct IH as (n & Hn & Hf & Hd).
+      cbn [run_txs].
+      destruct (get_proof_info L (tx_input r t)) as [w acc req| |] eqn:Hget.
+      + assert (Hout : tx_outcome L r t = outcome_of (Info w acc req))
+          by (unfold tx_outcome; rewrite Hget; reflexivity).
+        destruct w; cbn [negb].
+        * destruct (acc <? req) eqn:Hlt.
+          -- exists (S n). cbn [length firstn map cons_out fst snd].
+             rewrite Hout, Hf. cbn [outcome_of andb]. rewrite Hlt. cbn [negb].
+             repeat split; [lia | intros Hs; f_equal; auto].
+          -- destruct (t_subfail t).
+             ++ exists 1%nat. cbn [length firstn map fst snd].
+                rewrite Hout. cbn [outcome_of andb]. rewrite Hlt. cbn [negb].
+                repeat split; [lia | discriminate].
+             ++ exists (S n). cbn [length firstn map cons_out fst snd].
+                rewrite Hout, Hf. cbn [outcome_of andb]. rewrite Hlt. cbn [negb].
+                repeat split; [lia | intros Hs; f_equal; auto].
+        * exists (S n). cbn [length firstn map cons_out fst snd].
+          rewrite Hout, Hf. cbn [outcome_of andb].
+          repeat split; [lia | intros Hs; f_equal; auto].
+      + exists 0%nat. cbn [length firstn map fst snd]. repeat split; [lia | discriminate].
+      + exists 0%nat. cbn [length firstn map fst snd]. repeat split; [lia | discriminate].
+  Qed.
+
+  (* a transaction is submitted iff its proof is in the relay's range and its confirmations
+     reach its OWN required number (the one of theorems 2 and 3), with exactly that number *)
+  Theorem round_submission_exact : forall r t,
+      guards (tx_input r t) -> t_fail t = NoFail ->
+      let i := tx_input r t in
+      (forall q, tx_outcome L r t = Submitted q <->
+                 in_relay_range i /\ get_proof_info L i = Info true (i_conf i) q /\ q <= i_conf i) /\
+      (tx_outcome L r t = Skipped <->
+         ~ in_relay_range i \/
+         exists q, get_proof_info L i = Info true (i_conf i) q /\ i_conf i < q).
+  Proof.
+    intros r t G HF i.
+    destruct (classification_exact _ G HF) as (w & acc & req & Hget & Hw & Hacc).
+    fold i in Hget, Hw, Hacc. unfold tx_outcome. fold i. rewrite Hget. unfold outcome_of.
+    destruct w.
+    - specialize (Hacc eq_refl). subst acc. destruct Hw as [Hw _]. specialize (Hw eq_refl).
+      cbn [andb]. destruct (i_conf i <? req) eqn:Hlt; cbn [negb].
+      + apply Z.ltb_lt in Hlt. split.
+        * intros q. split; [discriminate|]. intros (_ & Hq & Hle). injection Hq as Hq. lia.
+        * split; [|reflexivity]. intros _. right. exists req. split; [reflexivity | exact Hlt].
+      + apply Z.ltb_ge in Hlt. split.
+        * intros q. split.
+          -- intros Hq. injection Hq as Hq. subst q. repeat split; [apply Hw | apply Hw | exact Hlt].
+          -- intros (_ & Hq & _). injection Hq as Hq. subst q. reflexivity.
+        * split; [discriminate|]. intros [Hn | (q & Hq & Hlt')]; [contradiction|].
+          injection Hq as Hq. lia.
+    - cbn [andb]. split.
+      + intros q. split; [discriminate|]. intros (Hr & _ & _).
+        destruct Hw as [_ Hw]. specialize (Hw Hr). discriminate.
+      + split; [|reflexivity]. intros _. left. intros Hr.
+        destruct Hw as [_ Hw]. specialize (Hw Hr). discriminate.
+  Qed.
+
+  (* the executable form for one transaction of a round *)
+  Definition tx_prop (i : input) (o : tx_out) : Prop :=
+    match o with
+    | Submitted req =>
+        in_relay_range i /\ req <= i_conf i /\
+        (S_of i / L = E_of i / L -> req = i_factor i) /\
+        (S_of i / L <> E_of i / L ->
+           let np := L - S_of i mod L in
+           i_factor i * i_dprev i <= acc_work np (i_dprev i) (i_dcur i) req /\
+           acc_work np (i_dprev i) (i_dcur i) (req - 1) < i_factor i * i_dprev i)
+    | Skipped =>
+        ~ in_relay_range i \/
+        (S_of i / L = E_of i / L /\ i_conf i < i_factor i) \/
+        (S_of i / L <> E_of i / L /\
+           acc_work (L - S_of i mod L) (i_dprev i) (i_dcur i) (i_conf i) < i_factor i * i_dprev i)
+    end.
+
+  Lemma tx_ok_sound : forall i o,
+      guards i -> i_fail i = NoFail -> tx_ok L i o = true -> tx_prop i o.
+  Proof.
+    intros i o G HF H. unfold tx_ok in H.
+    pose proof G as D. apply in_domain_guards in D. rewrite D, HF in H. cbn [negb] in H.
+    destruct o as [req|].
+    - apply andb_true_iff in H. destruct H as [Hs Hle]. apply Z.leb_le in Hle.
+      destruct (spec_ok_sound i _ G HF Hs) as (w & acc & q & Heq & Hw & Hrest).
+      injection Heq as <- <- <-.
+      destruct (Hrest eq_refl) as (_ & Hsame & Hdiff).
+      cbn [tx_prop]. repeat split; [apply Hw; reflexivity | apply Hw; reflexivity | exact Hle
+                                    | exact Hsame | apply Hdiff; assumption | apply Hdiff; assumption].
+    - fold (S_of i) in H. change (S_of i + i_factor i - 1) with (E_of i) in H.
+      cbn [tx_prop]. apply orb_true_iff in H. destruct H as [H | H].
+      + left. intros Hr. apply negb_true_iff in H. unfold in_relay_range in Hr.
+        assert (Hc : ((S_of i / L =? i_epoch i - 1) || (S_of i / L =? i_epoch i))
+                     && ((E_of i / L =? i_epoch i - 1) || (E_of i / L =? i_epoch i)) = true).
+        { rewrite andb_true_iff, !orb_true_iff, !Z.eqb_eq. exact Hr. }
+        rewrite Hc in H. discriminate.
+      + right. destruct (S_of i / L =? E_of i / L) eqn:Heq.
+        * left. apply Z.eqb_eq in Heq. apply Z.ltb_lt in H. split; assumption.
+        * right. apply Z.eqb_neq in Heq. apply Z.ltb_lt in H. split; assumption.
+  Qed.
+
+  Lemma tx_ok_outcome : forall i,
+      guards i -> i_fail i = NoFail -> tx_ok L i (outcome_of (get_proof_info L i)) = true.
+  Proof.
+    intros i G HF.
+    destruct (spec_ok_sound i _ G HF (model_passes_spec i)) as (w & acc & req & Hget & Hw & Hrest).
+    pose proof (model_passes_spec i) as Hm.
+    rewrite Hget in Hm |- *. unfold outcome_of, tx_ok.
+    pose proof G as D. apply in_domain_guards in D.
+    destruct w.
+    - destruct (Hrest eq_refl) as (Hacc & Hsame & Hdiff). subst acc. cbn [andb].
+      destruct (i_conf i <? req) eqn:Hlt; cbn [negb]; rewrite D, HF; cbn [negb].
+      + apply Z.ltb_lt in Hlt.
+        fold (S_of i). change (S_of i + i_factor i - 1) with (E_of i).
+        apply orb_true_iff. right.
+        destruct (S_of i / L =? E_of i / L) eqn:Heq.
+        * apply Z.eqb_eq in Heq. apply Z.ltb_lt. rewrite <- (Hsame Heq). exact Hlt.
+        * apply Z.eqb_neq in Heq. destruct (Hdiff Heq) as [_ Hmin]. apply Z.ltb_lt.
+          destruct G as (_ & _ & _ & _ & _ & Hdc & Hdp & _).
+          assert (Hle : acc_work (L - S_of i mod L) (i_dprev i) (i_dcur i) (i_conf i)
+                        <= acc_work (L - S_of i mod L) (i_dprev i) (i_dcur i) (req - 1))
+            by (apply acc_work_mono; lia).
+          lia.
+      + apply Z.ltb_ge in Hlt. rewrite Hm. apply Z.leb_le. exact Hlt.
+    - cbn [andb]. rewrite D, HF. cbn [negb].
+      fold (S_of i). change (S_of i + i_factor i - 1) with (E_of i).
+      apply orb_true_iff. left. apply negb_true_iff.
+      destruct (((S_of i / L =? i_epoch i - 1) || (S_of i / L =? i_epoch i))
+                && ((E_of i / L =? i_epoch i - 1) || (E_of i / L =? i_epoch i))) eqn:Hc; [|reflexivity].
+      rewrite andb_true_iff, !orb_true_iff, !Z.eqb_eq in Hc.
+      destruct Hw as [_ Hw]. symmetry. apply Hw. exact Hc.
+  Qed.
+
+  Lemma round_ok_cons : forall r t ts o os e,
+      in_domain (tx_input r t) = true -> t_fail t = NoFail ->
+      round_ok L r (t :: ts) (o :: os) e =
+      tx_ok L (tx_input r t) o &&
+      match o with
+      | Submitted _ => if t_subfail t then true else round_ok L r ts os e
+      | Skipped => round_ok L r ts os e
+      end.
+  Proof. intros r t ts o os e D HF. cbn [round_ok]. rewrite D, HF. reflexivity. Qed.
+
+  (* soundness of the executable round property: on a round of clean transactions it forces a
+     normal end and, transaction by transaction, the per-transaction property *)
+  Theorem round_ok_sound : forall r txs outs e,
+      (forall t, In t txs -> tx_clean r t) ->
+      round_ok L r txs outs e = true ->
+      e = Done /\ Forall2 (fun t o => tx_prop (tx_input r t) o) txs outs.
+  Proof.
+    intros r txs. induction txs as [|t ts IH]; intros outs e H Hok.
+    - cbn [round_ok] in Hok. destruct outs; [|discriminate]. destruct e; try discriminate.
+      split; [reflexivity | constructor].
+    - assert (Ht : tx_clean r t) by (apply H; left; reflexivity).
+      destruct Ht as (G & HF & HS).
+      pose proof G as D. apply in_domain_guards in D.
+      destruct outs as [|o os].
+      + cbn [round_ok] in Hok. rewrite D, HF in Hok. discriminate.
+      + rewrite (round_ok_cons r t ts o os e D HF) in Hok.
+        apply andb_true_iff in Hok. destruct Hok as [Ho Hrest].
+        assert (Hr : round_ok L r ts os e = true).
+        { destruct o; [rewrite HS in Hrest|]; exact Hrest. }
+        destruct (IH os e (fun t' Hin => H t' (or_intror Hin)) Hr) as [He Hall].
+        split; [exact He|]. constructor; [|exact Hall].
+        apply tx_ok_sound; assumption.
+  Qed.
+
+  (* ... and it holds of every round of the model, for ALL rounds (failures, unguarded inputs) *)
+  Theorem round_model_passes : forall r txs,
+      round_ok L r txs (fst (run_txs L r txs)) (snd (run_txs L r txs)) = true.
+  Proof.
+    intros r txs. induction txs as [|t ts IH].
+    - reflexivity.
+    - destruct (in_domain (tx_input r t)) eqn:D;
+        [|cbn [round_ok]; rewrite D; reflexivity].
+      destruct (t_fail t) eqn:HF; try (cbn [round_ok]; rewrite D, HF; reflexivity).
+      pose proof D as G. apply in_domain_guards in G.
+      destruct (classification_exact _ G HF) as (w & acc & req & Hget & _ & _).
+      pose proof (tx_ok_outcome _ G HF) as Hok. rewrite Hget in Hok.
+      cbn [run_txs]. rewrite Hget.
+      destruct w; cbn [negb].
+      + destruct (acc <? req) eqn:Hlt.
+        * cbn [outcome_of andb] in Hok. rewrite Hlt in Hok. cbn [negb] in Hok.
+          unfold cons_out. cbn [fst snd].
+          rewrite (round_ok_cons r t ts _ _ _ D HF). rewrite Hok, IH. reflexivity.
+        * cbn [outcome_of andb] in Hok. rewrite Hlt in Hok. cbn [negb] in Hok.
+          destruct (t_subfail t) eqn:HS.
+          -- cbn [fst snd]. rewrite (round_ok_cons r t ts _ _ _ D HF). rewrite Hok, HS. reflexivity.
+          -- unfold cons_out. cbn [fst snd].
+             rewrite (round_ok_cons r t ts _ _ _ D HF). rewrite Hok, HS, IH. reflexivity.
+      + cbn [outcome_of andb] in Hok. unfold cons_out. cbn [fst snd].
+        rewrite (round_ok_cons r t ts _ _ _ D HF). rewrite Hok, IH. reflexivity.
+  Qed.
 End Proofs.
 
 (* the hypotheses are satisfiable: the example of the code comment (previous difficulty 50,
@@ -449,6 +671,24 @@ Example example_span :
   get_proof_info 2016 example_input = Info true 12 9.
 Proof. vm_compute. repeat split; reflexivity. Qed.
 
+(* a round on which the round theorems speak: the spanning transaction of the example comes
+   FIRST and is followed by a current-epoch transaction with 4 confirmations (skipped: 6 are
+   required) and one with 10 (submitted with 6); the outcomes are the map of the
+   per-transaction function, each with the round's factor 6 *)
+Definition example_round : round :=
+  {| r_factor := 6; r_epoch := 300; r_dcur := 30; r_dprev := 50;
+     r_txs := [ {| t_latest := 300 * 2016 + 28; t_conf := 31; t_fail := NoFail; t_subfail := false |};
+                {| t_latest := 300 * 2016 + 28; t_conf := 4; t_fail := NoFail; t_subfail := false |};
+                {| t_latest := 300 * 2016 + 28; t_conf := 10; t_fail := NoFail; t_subfail := false |} ] |}.
+Example example_round_clean : forall t, In t (r_txs example_round) -> tx_clean example_round t.
+Proof.
+  intros t [<- | [<- | [<- | []]]];
+    (split; [unfold guards, E_of, S_of, two64; cbn; lia | split; reflexivity]).
+Qed.
+Example example_round_outcome :
+  prove_round 2016 example_round = ([Submitted 9; Skipped; Submitted 6], Done).
+Proof. vm_compute. reflexivity. Qed.
+
 Lemma L_bounds : 2 <= difficultyEpochLength < 2 ^ 32.
 Proof. unfold difficultyEpochLength. lia. Qed.
 
@@ -463,4 +703,9 @@ Module AtConst.
     zero_current_difficulty_panics difficultyEpochLength L_bounds.
   Definition spec_ok_sound := spec_ok_sound difficultyEpochLength L_bounds.
   Definition model_passes_spec := model_passes_spec difficultyEpochLength L_bounds.
+  Definition round_is_map := round_is_map difficultyEpochLength L_bounds.
+  Definition round_prefix := round_prefix difficultyEpochLength.
+  Definition round_submission_exact := round_submission_exact difficultyEpochLength L_bounds.
+  Definition round_ok_sound := round_ok_sound difficultyEpochLength L_bounds.
+  Definition round_model_passes := round_model_passes difficultyEpochLength L_bounds.
 End AtConst.
